@@ -33,7 +33,9 @@ func (wd *world) scheduled(r *sim.R, fn func(), maxSteps int) (stall string, sc 
 		id := sim.GoID()
 		n, ok := names[id]
 		if !ok {
-			n = fmt.Sprintf("g%02d", len(names))
+			// named after the goroutine's first operation: independent of goroutine identity and of
+			// the order in which symmetric workers happen to start
+			n = "r:" + string(op.Kind) + " " + op.Path
 			names[id] = n
 		}
 		sc.Yield(n, string(op.Kind)+" "+op.Path)
@@ -90,14 +92,12 @@ func c11(r *sim.R) *sim.Violation {
 			m.Add("eth0", model.FlowBlock(base+int64(d)*86400+int64(b)*300, model.GenFlows(r.T, 4, true), 0))
 		}
 	}
-	if r.T.Draw(3) == 0 {
-		for d := 0; d < 1+r.T.Draw(3); d++ {
-			m.Add("eth1", model.FlowBlock(base+int64(d)*86400+300, model.GenFlows(r.T, 4, true), 0))
-		}
-	}
+	// one interface only: the engine iterates a Go map of per-interface work managers, whose order
+	// no seed controls; with several interfaces the schedule (not the result) would not replay
 	build(m, r.T)
 	q := model.GenQuery(r.T, m)
 	q.First, q.Last = 1, 4102444800
+	q.Ifaces = []string{"eth0"}
 	if q.Cond != nil {
 		// keep the known family-pruning deviation out of this property: it is C08's finding
 		if a, b := q.Cond.Families(); a != b {
